@@ -813,12 +813,34 @@ def io_reaching_functions(mods):
     return reach
 
 
-def _embedded_loop_vars(key, loop, loop_vars, depth=0) -> set:
+def _position_table(name, fd) -> bool:
+    """`name` is bound once in fd to a mapping from members to their POSITIONS in a sequence ({v: n for n, v in enumerate(seq)}, dict(zip(seq, range(..)))):
+    different members have different positions, so a look-up in it can be read back"""
+    if fd is None:
+        return False
+    vals = [st.value for st in ast.walk(fd) if isinstance(st, ast.Assign) and any(isinstance(t, ast.Name) and t.id == name for t in st.targets)]
+    if len(vals) != 1:
+        return False
+    v = vals[0]
+    if isinstance(v, ast.DictComp) and len(v.generators) == 1 and isinstance(v.generators[0].iter, ast.Call) and (dotted_name(v.generators[0].iter.func) or "") == "enumerate" \
+            and isinstance(v.generators[0].target, ast.Tuple) and len(v.generators[0].target.elts) == 2 and all(isinstance(e, ast.Name) for e in v.generators[0].target.elts) \
+            and not v.generators[0].ifs:
+        cnt, item = (e.id for e in v.generators[0].target.elts)
+        return isinstance(v.value, ast.Name) and v.value.id == cnt and isinstance(v.key, ast.Name) and v.key.id == item
+    if isinstance(v, ast.Call) and (dotted_name(v.func) or "") == "dict" and len(v.args) == 1 and isinstance(v.args[0], ast.Call) and (dotted_name(v.args[0].func) or "") == "zip" \
+            and len(v.args[0].args) == 2 and isinstance(v.args[0].args[1], ast.Call) and (dotted_name(v.args[0].args[1].func) or "") in ("range", "itertools.count"):
+        return True
+    return False
+
+
+def _embedded_loop_vars(key, loop, loop_vars, depth=0, fd=None) -> set:
     """loop variables whose value can be read back from the value of the key expression: the variable itself, a component of a tuple / index tuple / f-string,
     str()/repr() of it, a constant added or subtracted, or a body local bound once to such an expression"""
     if depth > 6:
         return set()
-    rec = lambda e: _embedded_loop_vars(e, loop, loop_vars, depth + 1)
+    rec = lambda e: _embedded_loop_vars(e, loop, loop_vars, depth + 1, fd)
+    if isinstance(key, ast.Subscript) and isinstance(key.value, ast.Name) and _position_table(key.value.id, fd):
+        return rec(key.slice)            # position of the member in a sequence of distinct members
     if isinstance(key, ast.Name):
         if key.id in loop_vars:
             return {key.id}
@@ -848,9 +870,9 @@ def _embedded_loop_vars(key, loop, loop_vars, depth=0) -> set:
     return set()
 
 
-def _distinct_per_iteration(key, loop, loop_vars) -> bool:
+def _distinct_per_iteration(key, loop, loop_vars, fd=None) -> bool:
     """different members of the collection give different keys: every loop variable can be read back from the key"""
-    return _embedded_loop_vars(key, loop, loop_vars) >= set(loop_vars)
+    return _embedded_loop_vars(key, loop, loop_vars, 0, fd) >= set(loop_vars)
 
 
 def commutative_body(loop: ast.For, fd=None, effectful=()):
@@ -900,7 +922,7 @@ def commutative_body(loop: ast.For, fd=None, effectful=()):
             if isinstance(root, ast.Name) and root.id in ordered:
                 return False, f"store {src(t)} adds or sets a column/row of the pandas object {root.id}: its column order (printed, iterated later) follows the set order"
             if (idx_names & (loop_vars | (body_locals - carried))) and not reads_base:
-                if not _distinct_per_iteration(t.slice, loop, loop_vars):
+                if not _distinct_per_iteration(t.slice, loop, loop_vars, fd):
                     return False, (f"store {src(t)} is keyed by a value derived from the loop variable that need not differ between iterations "
                                    f"(two members of the set can map to one key: the one that comes last in set order wins)")
                 return True, ""
